@@ -162,12 +162,14 @@ func (d DDoc) Render(opt RenderOpt) string {
 
 // ---- alphabets ----
 
-var D822Firsts = []string{"", "v", "v w", "v: w", "#v", "é\tz", ".", "3-8% of %s", "J\xf6rg a\rb"}
+// (the last two end in a character whose UTF-8 encoding ends in 0xA0 / 0x85 - bytes that are white space as Latin-1)
+var D822Firsts = []string{"", "v", "v w", "v: w", "#v", "é\tz", ".", "3-8% of %s", "J\xf6rg a\rb", "abilit\u00e0", "\u00c5"}
 
 var D822ContLines = []DLine{
 	{' ', "x"}, {'\t', "x"}, {' ', " indented"}, {'\t', " indented"}, {' ', "."}, {'\t', "."}, {' ', "x  "}, {' ', "y: z"},
 	{' ', "#include <x>"}, {' ', "\ttabbed"}, {' ', "100%d %"}, {' ', "Ren\xe9 \xff"}, {' ', ".."}, {' ', ". ."},
 	{' ', " ."}, {'\t', "\t."}, // an indented dot is text (the '.' rule is about the line " ." only)
+	{' ', "citt\u00e0"},
 }
 
 // D822FieldShapes: every first line x every sequence of 0..maxCont continuation lines.
